@@ -355,7 +355,7 @@ fn run_schedule(tpl: &Template, case: &Case, prefix: &[usize]) -> RunOut {
         }
         while pump(&mut evt_rx, &fwd_tx, &mut monitor, Duration::from_millis(2)).await.is_some() {}
         // read the subscriber's stream until it has the last change produced, ended with an error, or
-        // closed; a stream that is still live but silent is given 3 s before it is judged behind
+        // closed; a stream that is still live but silent is given 12 s before it is judged behind
         let total_changes = case.pre + case.n + 1;
         let mut rx = sub_rx_out.take().unwrap();
         let mut stream: Vec<(QueryEventMeta, Bytes)> = vec![];
@@ -374,7 +374,7 @@ fn run_schedule(tpl: &Template, case: &Case, prefix: &[usize]) -> RunOut {
                         }
                         break;
                     }
-                    if settle.elapsed() > Duration::from_secs(3) {
+                    if settle.elapsed() > Duration::from_secs(12) {
                         break;
                     }
                     tokio::time::sleep(Duration::from_millis(1)).await;
@@ -804,7 +804,11 @@ fn main() {
         std::process::exit(if out.violations.is_empty() { 0 } else { 1 });
     }
     let cases: Vec<Case> = match cli.tier {
-        Tier::Quick => vec![Case { pre: 0, n: 1, from: None, skip_rows: false }, Case { pre: 1, n: 1, from: Some(0), skip_rows: false }],
+        Tier::Quick => vec![
+            Case { pre: 0, n: 1, from: None, skip_rows: false },
+            Case { pre: 1, n: 1, from: Some(0), skip_rows: false },
+            Case { pre: 1, n: 1, from: Some(1), skip_rows: false },
+        ],
         Tier::Thorough => vec![
             Case { pre: 0, n: 1, from: None, skip_rows: false },
             Case { pre: 1, n: 1, from: Some(0), skip_rows: false },
